@@ -281,6 +281,12 @@ def asyncio_runner(chk):
                     arg = util.unparse(n.args[0]) if n.args else ""
                     if "current_task" in arg and fi.name in facts["monitors"]:
                         continue
+                    # a helper of the monitor that is handed asyncio.current_task() for exactly this parameter
+                    if n.args and isinstance(n.args[0], ast.Name) and n.args[0].id in fi.params():
+                        idx = fi.params().index(n.args[0].id)
+                        sites = [(g, c) for gs in cls.methods.values() for g in gs for c in ast.walk(g.node) if isinstance(c, ast.Call) and util.dotted(c.func) == "self." + fi.name]
+                        if sites and all(g.name in facts["monitors"] and idx < len(c.args) and "current_task" in util.unparse(c.args[idx]) for g, c in sites):
+                            continue
                     chk.bad(rule, fi.qual, "%s removes %s from the task registry: a running payload can drop out of the set that is cancelled on shutdown" % (fi.name, arg or "tasks"), node=n, stmt="registry-removal in %s" % fi.name)
                     ok = False
     if ok:
